@@ -1,0 +1,31 @@
+//go:build verif
+
+// Verification hooks (build tag "verif"): failpoints between the file-system operations of TakeSnapshot and
+// Restore. This file is not compiled unless the tag is given.
+
+package snapshot
+
+import "sync/atomic"
+
+// VerifHook, when set, is called at every failpoint with the name of the point and the file (or, for points that
+// do not concern one file, the data directory) it refers to. It runs on the goroutine that takes the snapshot,
+// so a hook that blocks holds the snapshot at that point; a hook that copies the data directory sees exactly
+// the operations completed so far.
+var verifHook atomic.Pointer[func(point string, file string)]
+
+func VerifSetHook(h func(point string, file string)) {
+	if h == nil {
+		verifHook.Store(nil)
+		return
+	}
+	verifHook.Store(&h)
+}
+
+func verifPoint(point string, file string) {
+	if h := verifHook.Load(); h != nil {
+		(*h)(point, file)
+	}
+}
+
+// VerifChangeCount reports the number of changes counted since the last snapshot.
+func (engine *Engine) VerifChangeCount() uint64 { return engine.changeCount.Load() }
